@@ -1766,7 +1766,7 @@ fn run(opts: &Opts, acc: &mut Acc) {
     }
 
     let n = match (opts.tier, opts.is_dbg()) {
-        (Tier::Quick, false) => 60_000,
+        (Tier::Quick, false) => 200_000,
         (Tier::Quick, true) => 10_000,
         (_, false) => 800_000,
         (_, true) => 80_000,
